@@ -27,7 +27,10 @@ PASS_ITER = ("std::iter::IntoIterator>::into_iter", "std::iter::IntoIterator::in
 
 PASS_REF = ("std::ops::Deref>::deref", "std::ops::DerefMut>::deref_mut", "Vec::as_slice", "Vec<T, A>::as_slice", "Vec::as_mut_slice",
             "Vec<T, A>::as_mut_slice", "std::convert::AsRef>::as_ref", "std::convert::AsMut>::as_mut", "std::borrow::Borrow>::borrow",
-            "std::borrow::BorrowMut>::borrow_mut", "SmallVec::as_slice", "SmallVec<A>::as_slice")
+            "std::borrow::BorrowMut>::borrow_mut", "SmallVec::as_slice", "SmallVec<A>::as_slice",
+            # (the same through a type parameter: the call is not resolved to an impl)
+            "std::ops::Deref::deref", "std::ops::DerefMut::deref_mut", "std::convert::AsRef::as_ref", "std::convert::AsMut::as_mut",
+            "std::borrow::Borrow::borrow", "std::borrow::BorrowMut::borrow_mut")
 
 
 def _place_text(f, o, depth=6):
@@ -45,6 +48,10 @@ def _place_text(f, o, depth=6):
         ds = mir.defs_of(f).get(l, [])
         if len(ds) == 1 and ds[0][0] == "call" and callee_matches(ds[0][2], *PASS_REF) and ds[0][2].get("args"):
             o = ds[0][2]["args"][0]
+            continue
+        if len(ds) == 1 and ds[0][0] == "stmt" and ds[0][3]["rv"]["k"] == "cast" and mir.op_place(ds[0][3]["rv"]["op"]) is not None:
+            # a pointer cast of a field (a smart pointer's `pointer` handed to `deref`): the same object
+            o = ds[0][3]["rv"]["op"]
             continue
         return txt
     return None
